@@ -389,11 +389,51 @@ func extractDecoder(p *core.Prog, r *core.Result, rule string) *decoderTable {
 					dc.Pushes = append(dc.Pushes, c)
 				case dt.pop:
 					dc.Pops = append(dc.Pops, c)
+				default:
+					// a helper of the decoder that reads the payload itself (e.g. decodeShort): its reads are the
+					// reads of the case
+					collectHelperReads(dt, dc, core.Callee(c), 0)
 				}
 			}
 		}
 	}
 	return dt
+}
+
+// collectHelperReads adds the fixed-width reads performed (outside loops) by a Decoder helper called from a case.
+func collectHelperReads(dt *decoderTable, dc *decCase, h *ssa.Function, depth int) {
+	if h == nil || h.Blocks == nil || depth > 1 || h.Signature.Recv() == nil || recvNamed(h) != "Decoder" || h.Pkg == nil || h.Pkg.Pkg.Path() != pkgPickle {
+		return
+	}
+	switch h {
+	case dt.readByte, dt.readU32, dt.readU64, dt.push, dt.pop, dt.Fn:
+		return
+	}
+	for _, b := range h.Blocks {
+		if core.Reaches(b, b, false) {
+			continue
+		}
+		for _, in := range b.Instrs {
+			c, ok := in.(*ssa.Call)
+			if !ok {
+				continue
+			}
+			switch core.Callee(c) {
+			case dt.readByte:
+				dc.Reads = append(dc.Reads, decRead{"byte", c, 1})
+			case dt.readU32:
+				if dt.readU32 != nil {
+					dc.Reads = append(dc.Reads, decRead{"u32", c, 4})
+				}
+			case dt.readU64:
+				if dt.readU64 != nil {
+					dc.Reads = append(dc.Reads, decRead{"u64", c, 8})
+				}
+			default:
+				collectHelperReads(dt, dc, core.Callee(c), depth+1)
+			}
+		}
+	}
 }
 
 // orTree decomposes v into sources combined with | and << const; returns source -> shift.
